@@ -52,8 +52,8 @@ def run(tier="quick", seed=0, use_cache=True):
             if isinstance(v, int) and not isinstance(v, bool):
                 tot[k] = tot.get(k, 0) + v
     oo = out["OO"]["stats"]
-    res.floor("comparison error exits (OO)", oo["cmp_error_sites"], 12)
-    res.floor("SetIteration initialisations (OO)", oo["iter_sites"], 5)
+    res.floor("comparison error exits (OO)", oo["cmp_error_sites"], 9)
+    res.floor("SetIteration initialisations (OO)", oo["iter_sites"], 4)
     res.floor("object-key translation units", sum(1 for r in out.values() if r["stats"]["object_keys"]), 5)
     res.floor("translation units", len(out), 22)
     res.count("CMP-EXIT", tot["cmp_error_sites"])
